@@ -8,7 +8,7 @@
    only by the shape facts regenerated from the Go AST (Gen/SchedShape.v) and by the race detector
    in the differential run; it is not proved. *)
 From Coq Require Import String List Arith Bool Permutation.
-From Falco Require Import Model.Sched Gen.SchedShape Proofs.SchedProofs Proofs.SchedSerial Proofs.SchedShapeFacts.
+From Falco Require Import Model.Sched Gen.SchedShape Proofs.SchedProofs Proofs.SchedSerial Proofs.SchedPlugins Proofs.SchedShapeFacts.
 Import ListNotations.
 
 (* any number of requests, any bodies (sequences of atomic accesses to the shared state and of
@@ -35,13 +35,29 @@ Theorem C18_locked_serialisable_ref :
   forall i, i < length bodies -> resp c i = seq_resp (fun i => nth i bodies []) (acq c) s0 i.
 Proof. exact locked_serialisable. Qed.
 
-(* plugin reporting, one thread per reported diagnostic (goroutine program order only removes
-   interleavings): with the mutex around read-append-write every diagnostic is in the final list *)
+(* plugin reporting as a corollary of serialisability, one thread per reported diagnostic: with the
+   mutex around read-append-write every diagnostic is in the final list *)
 Theorem C18_append_locked_complete :
   forall (D : Type) (ds : list D) sched c,
   respects_lock (reports D (report_locked D) ds) (astate0 D) sched c ->
   forall d, In d ds -> In d (fst (st c)).
 Proof. exact append_locked_complete. Qed.
+
+(* custom_linter.go literally: plugin goroutine k reports the LIST nth k dss of diagnostics, one call of
+   Linter.Error (Acquire; read; append-write; Release) per diagnostic, in program order; any number of
+   plugins, any lists, every lock-respecting interleaving: every diagnostic of every plugin is in the
+   final list.  Without the mutex (two plugins, two diagnostics each) one is lost. *)
+Theorem C18_append_locked_complete_goroutines :
+  forall (D : Type) (dss : list (list D)) sched c,
+  respects_lock (plugin_threads D (report_locked D) dss) (astate0 D) sched c ->
+  forall k d, In d (nth k dss []) -> In d (fst (st c)).
+Proof. exact append_locked_complete_goroutines. Qed.
+
+Theorem C18_append_unlocked_goroutines_refuted :
+  exists (dss : list (list nat)) sched c,
+    exec sched (init (plugin_threads nat (report_unlocked nat) dss) (astate0 nat)) = Some c /\
+    finished (length dss) c /\ exists k d, In d (nth k dss []) /\ ~ In d (fst (st c)).
+Proof. exact append_unlocked_goroutines_refuted. Qed.
 
 (* without the mutex a diagnostic is lost (read, read, write, write) *)
 Theorem C18_append_unlocked_refuted :
@@ -60,5 +76,7 @@ Proof. exact shape_facts. Qed.
 Print Assumptions C18_locked_serialisable_partial.
 Print Assumptions C18_locked_serialisable_ref.
 Print Assumptions C18_append_locked_complete.
+Print Assumptions C18_append_locked_complete_goroutines.
+Print Assumptions C18_append_unlocked_goroutines_refuted.
 Print Assumptions C18_append_unlocked_refuted.
 Print Assumptions C18_shape_facts.
